@@ -562,6 +562,25 @@ pub fn make_world(plan: &Plan, seed: u64, idx: u64) -> (World, String, Prng) {
         // where a hash table can no longer grow and the point where the gate vector can no longer
         // grow there is a window (14k-32k, 28k-65k, 57k-131k, 114k-262k, 229k-524k gates) in which
         // the process survives with a table that stopped growing
+        if family == "big" && p.chance(1, 2) {
+            // a veteran: a long-lived process that compiled a dozen large programs before
+            // (process-wide statistics, adaptive heuristics, caches that fill up over time)
+            let mut hist = vec![];
+            if p.chance(1, 2) {
+                // a homogeneous history: the same kind of workload over and over
+                let workload = gen::big_program_with(&mut p, true);
+                for _ in 0..p.range(12, 16) {
+                    hist.push(warm_step(workload.clone()));
+                }
+            } else {
+                let others: Vec<String> = (0..3).map(|_| gen::big_program(&mut p)).collect();
+                for k in 0..p.range(10, 14) {
+                    hist.push(warm_step(if k % 4 == 3 { src.clone() } else { others[(k % 3) as usize].clone() }));
+                }
+            }
+            hist.push(target.clone());
+            parties.push(PartySpec { keys, steps: hist, process: true, alloc_limit: None, env_flip: vec![] });
+        }
         if family == "big" {
             for lim in [1usize << 20, 2 << 20, 4 << 20, 8 << 20, 16 << 20] {
                 parties.push(PartySpec { keys, steps: vec![target.clone()], process: true, alloc_limit: Some(lim), env_flip: vec![] });
